@@ -741,16 +741,28 @@ class KeychainSqlite3(Keychain):
             if key_name in identity:
                 raise KeyError(f'Key {Name.to_str(key_name)} already exists')
         key_name, pub_key = self.tpm.generate_key(name, key_type, **kwargs)
-        signer = self.tpm.get_signer(key_name)
-        cert_name, cert_data = self_sign(key_name, pub_key, signer)
-        key_name = Name.to_bytes(key_name)
-        cert_name = Name.to_bytes(cert_name)
-        self.conn.execute('INSERT INTO keys (identity_id, key_name, key_bits) VALUES (?, ?, ?)',
-                          (identity.row_id, key_name, pub_key))
-        self.conn.execute('INSERT INTO certificates (key_id, certificate_name, certificate_data)'
-                          'VALUES ((SELECT id FROM keys WHERE key_name=?), ?, ?)',
-                          (key_name, cert_name, bytes(cert_data)))
-        self.conn.commit()
+        # A signer handed out earlier for this key name holds another private key
+        self._signer_cache = {}
+        private_key_name = key_name
+        try:
+            signer = self.tpm.get_signer(key_name)
+            cert_name, cert_data = self_sign(key_name, pub_key, signer)
+            key_name = Name.to_bytes(key_name)
+            cert_name = Name.to_bytes(cert_name)
+            self.conn.execute('INSERT INTO keys (identity_id, key_name, key_bits) VALUES (?, ?, ?)',
+                              (identity.row_id, key_name, pub_key))
+            self.conn.execute('INSERT INTO certificates (key_id, certificate_name, certificate_data)'
+                              'VALUES ((SELECT id FROM keys WHERE key_name=?), ?, ?)',
+                              (key_name, cert_name, bytes(cert_data)))
+            self.conn.commit()
+        except Exception:
+            # The key is not going to be listed: do not leave its private part behind, where it could still be
+            # signed with (and would be mistaken for the private part of a key created under this name later)
+            try:
+                self.tpm.delete_key(private_key_name)
+            except Exception:
+                pass
+            raise
 
         if not identity.has_default_key():
             identity.set_default_key(key_name)
